@@ -34,6 +34,7 @@ func c03(c *Ctx) {
 	coreCommitBundle(c, "R10", "S-MATCH", "C05.R3")
 	sLockDiscipline(c, "R11/S-LOCK", "raftState", "commitment")
 	sAtomicOnly(c, "R11/S-ATOMIC")
+	sStoreWriters(c, "R12/S-WRITERS")
 }
 
 // truncationTracks are the per-iteration tracks of appendEntries' entry loop.
